@@ -4,6 +4,12 @@ import subprocess
 from vdriver import Job
 
 ID = "C10"
+# not claimed: see NOT_CLAIMED_REASON; the harness is kept runnable (bin/check C10) for the record but is not registered in MANIFEST.checks
+CLAIMED = False
+NOT_CLAIMED_REASON = ("MovePicker::next works on a 218-slot move list and a 255-slot score array inside large by-value structs; with symbolic hash/killer/counter moves the "
+                      "selection sort swaps at symbolic indices and CBMC's encoding explodes (measured: 3 legal moves with arbitrary history scores = 24 M variables / 130 M "
+                      "clauses, out of memory at 20 GB; a 27-move position with generators, SEE and history concretised runs out of memory during symbolic execution; "
+                      "only a 2-move position verifies). The position corpus that does finish is too small to carry the property (DESIGN.md s.6)")
 LEVEL = "model_checking"
 MAIN = "c10"
 MODULES = ["geom", "pos", "stubs", "c10"]
@@ -115,11 +121,15 @@ MANIFEST = {
 QUICK_ALWAYS = ["picker_see_bug", "picker_ep", "promo_caps", "in_check_few", "only_king", "losing_and_winning"]
 
 
+SMALL = 8   # up to this many legal moves every history score is arbitrary; above, the history table is empty (stated bound)
+
+
 def instance(name, fen, caps, see_ok, quiets, loud, use_hash):
     hn = f"c10_{'loud' if loud else 'full'}_{'hash' if use_hash else 'nohash'}_{name}"
     n_legal = len(caps) + len(quiets)
+    hist = "c10::stub_history_get" if n_legal <= SMALL else "c10::stub_history_zero"
     attrs = ["#[kani::proof]", f"#[kani::unwind({n_legal + 3})]", "#[kani::stub(std::time::Instant::now, c10::stub_now)]",
-             "#[kani::stub(crate::engine::search::tables::HistoryTable::get, c10::stub_history_get)]",
+             f"#[kani::stub(crate::engine::search::tables::HistoryTable::get, {hist})]",
              "#[kani::stub(crate::chess::movegen::gen::generate_captures, c10::stub_gen_captures)]",
              "#[kani::stub(crate::chess::movegen::gen::generate_quiets, c10::stub_gen_quiets)]",
              "#[kani::stub(crate::engine::see::see, c10::stub_see)]"]
@@ -168,8 +178,11 @@ def finalize(jobs, data, tier, seed):
         for loud, use_hash in ((False, False), (False, True), (True, False)):
             hn, src = instance(n, fen, c, s, q, loud, use_hash)
             js.append(Job(hn, f"{'captures-only' if loud else 'full'} picker{' with hash move' if use_hash else ''} on '{fen}' ({len(c)} captures/promotions + {len(q)} quiets): "
-                              "all ordering-table contents", gen=src,
+                              f"all hash/killer/counter-move contents, history scores {'arbitrary' if len(c) + len(q) <= SMALL else 'zero'}", gen=src,
                           timeout=3000 if tier == "thorough" else 1500, mem_gb=20, checks="functional", witness=False,
+                          # the 64-element inner arrays of the history / counter-move tables and the mailbox would otherwise be split into ~17,000 scalar symbols
+                          # that every path merge has to walk (measured: 20 s per iteration of a trivial copy loop)
+                          extra_cbmc=["--max-field-sensitivity-array-size", "16"],
                           params={"fen": fen, "captures": len(c), "quiets": len(q), "loud": loud, "hash_move": use_hash}))
     return js
 
